@@ -1281,6 +1281,44 @@ func TestVerifC14(t *testing.T) {
 			rep.Fail("randomblob-length", fmt.Sprintf("%q is %s on SQLite but was replicated as %q = %s", text, o, st[0].Sql, w), map[string]interface{}{"sql": text})
 		}
 	}
+	// meaning A'': RANDOM hexadecimal literals (hex_literal_general is about every digit string): either the
+	// call is pinned and the blob has the length SQLite's randomblob produces, or it is left alone and
+	// SQLite rejects it. Values are kept below 2^16 or at least 2^32 so that SQLite never allocates much.
+	for i := 0; i < vfScale(60, 4000); i++ {
+		const hexd = "0123456789abcdefABCDEF"
+		var lit string
+		if r.Chance(50) {
+			lit = strings.Repeat("0", r.Intn(15))
+			for k := 1 + r.Intn(4); k > 0; k-- {
+				lit += string(hexd[r.Intn(len(hexd))])
+			}
+		} else {
+			lit = string(hexd[1+r.Intn(len(hexd)-1)])
+			for k := 8 + r.Intn(9); k > 0; k-- {
+				lit += string(hexd[r.Intn(len(hexd))])
+			}
+		}
+		arg := r.Pick([]string{"0x", "0X"}) + lit
+		if r.Chance(25) {
+			arg = "-" + arg
+		}
+		text := "SELECT length(randomblob(" + arg + "))"
+		st := []*proto.Statement{{Sql: text}}
+		if err := Process(st, true, true); err != nil {
+			rep.Fail("randomblob-hex-literal", fmt.Sprintf("Process(%q): %v", text, err), nil)
+			continue
+		}
+		rep.Count("meaning:randomblob-random-hex-literal")
+		o := c14Eval(mem, text)
+		if st[0].Sql == text {
+			rep.Count("meaning:randomblob-random-hex-literal:left-alone")
+			if o != "ERROR" {
+				rep.Fail("randomblob-length", fmt.Sprintf("%q is left alone but SQLite evaluates it to %s", text, o), map[string]interface{}{"sql": text})
+			}
+		} else if w := c14Eval(mem, st[0].Sql); o != w {
+			rep.Fail("randomblob-length", fmt.Sprintf("%q is %s on SQLite but was replicated as %.80q = %s", text, o, st[0].Sql, w), map[string]interface{}{"sql": text})
+		}
+	}
 	// a literal beyond SQLite's blob limit is left alone - and SQLite rejects it, identically everywhere
 	for _, arg := range []string{"99999999999", "1000000001", "0x7fffffffffff", "1e10", "99999999999999999999", "3000000000.5",
 		"0x7FFFFFFFFFFFFFFF", "0x10000000000000000", "-0x8000000000000000", "1e999"} {
